@@ -8,6 +8,7 @@ import (
 	"net"
 	"strings"
 	"sync"
+	"time"
 
 	"github.com/tmpim/casket/casketfile"
 	"github.com/tmpim/casket/zzverif/verifrt"
@@ -69,6 +70,11 @@ func (s *zzLifeServer) Listen() (net.Listener, error) {
 func (s *zzLifeServer) Serve(ln net.Listener) error {
 	zzEvent("serve@" + s.tag)
 	<-s.stop
+	if !verifrt.Symbolic() && !strings.HasPrefix(s.tag, "A") {
+		// natively the loops of later instances take a moment to wind down, so that a Wait which does
+		// not cover them returns visibly early (the engine's scheduler shows this without a delay)
+		time.Sleep(40 * time.Millisecond)
+	}
 	zzEvent("served@" + s.tag)
 	return errors.New("use of closed network connection")
 }
